@@ -82,7 +82,7 @@ def Prog.isProcessing : Prog → Bool
 
 def Micro.wAllowed : Micro → Bool
   | .setActive _ | .coalesce | .setErr _ | .nop | .storePF | .endSupp | .readProg
-  | .writeClr | .setStaged _ | .clearRet | .beginHandoff | .startRet | .notifyM | .fatal => true
+  | .writeClr | .setStaged _ | .setMeta | .clearRet | .beginHandoff | .startRet | .notifyM | .fatal => true
   | .setProg p => !p.isBusy
   | _ => false
 
@@ -266,13 +266,13 @@ structure Inv (s : St) : Prop where
   rel1 : wsum Micro.relM s.m ≤ 1
   store : firstRelIsStore s.m = true → s.reloading = false
   note : s.reloading = true → anyRelM s.m = false → s.notify = true
-  busy : s.progress.isBusy = true → s.pending = true ∨ anyRd s.m = true ∨
+  busy : s.faults = 0 → s.progress.isBusy = true → s.pending = true ∨ anyRd s.m = true ∨
           anyRd s.w = true ∨ 0 < s.gStore + s.gEnd + s.gRead + s.gWrite
   act : s.active = true → anyClrW s.w = true ∨ anyClrM s.m = true ∨ s.reloading = true
-  proc : s.progress.isProcessing = true → anyAnsW s.w = true ∨ anyAnsM s.m = true ∨
+  proc : s.faults = 0 → s.progress.isProcessing = true → anyAnsW s.w = true ∨ anyAnsM s.m = true ∨
           (s.reloading = true ∧ anyRelM s.m = false)
   tail : wsum Micro.tokW s.w = 0 → allInert s.w = true
-  own : answerPending s = true → s.progress.isAnswer = false
+  own : s.faults = 0 → answerPending s = true → s.progress.isAnswer = false
 
 def Good (s : St) : Prop := s.exited = true ∨ Inv s
 
@@ -384,13 +384,13 @@ theorem rest_stepW {s : St} (h : Inv s) {x : Micro} {rest : List Micro} (hw : s.
     wfW s'.w = true ∧ wfM s'.m = true ∧ wsum Micro.relM s'.m ≤ 1 ∧
     (firstRelIsStore s'.m = true → s'.reloading = false) ∧
     (s'.reloading = true → anyRelM s'.m = false → s'.notify = true) ∧
-    (s'.progress.isBusy = true → s'.pending = true ∨ anyRd s'.m = true ∨ anyRd s'.w = true ∨
+    (s'.faults = 0 → s'.progress.isBusy = true → s'.pending = true ∨ anyRd s'.m = true ∨ anyRd s'.w = true ∨
         0 < s'.gStore + s'.gEnd + s'.gRead + s'.gWrite) ∧
     (s'.active = true → anyClrW s'.w = true ∨ anyClrM s'.m = true ∨ s'.reloading = true) ∧
-    (s'.progress.isProcessing = true → anyAnsW s'.w = true ∨ anyAnsM s'.m = true ∨
+    (s'.faults = 0 → s'.progress.isProcessing = true → anyAnsW s'.w = true ∨ anyAnsM s'.m = true ∨
         (s'.reloading = true ∧ anyRelM s'.m = false)) ∧
     (wsum Micro.tokW s'.w = 0 → allInert s'.w = true) ∧
-    (answerPending s' = true → s'.progress.isAnswer = false) := by
+    (s'.faults = 0 → answerPending s' = true → s'.progress.isAnswer = false) := by
   obtain ⟨tok, sup, wfw, wfm, rel1, store, note, busy, act, proc, tail, own⟩ := h
   rw [hw] at wfw busy act proc tail
   simp only [answerPending, hw] at own
@@ -425,26 +425,26 @@ theorem rest_stepW {s : St} (h : Inv s) {x : Micro} {rest : List Micro} (hw : s.
        key (by simp only [wsum_cons]; omega)
      have k2 : 1 ≤ wsum Micro.tokW rest → anyAnsM s.m = false := fun h =>
        keyM (by simp only [wsum_cons]; omega)
-     refine ⟨?_, ?_, ?_, ?_, ?_, ?_, ?_, ?_, ?_, ?_⟩ <;>
+     refine ⟨?_, ?_, ?_, ?_, ?_, ?_, ?_, ?_, ?_, ?_⟩ <;> (try intro hf0) <;>
      simp_all [Micro.ansW, Micro.ansM, Prog.isProcessing, Micro.inert, Micro.isProc, Prog.isAnswer, answerPending, wfW, Micro.wAllowed, Micro.isReader, Micro.clrW, Micro.tokW, Micro.sup, Prog.isBusy])
   case readProg =>
     by_cases hb : s.progress.isBusy = true <;>
-    (refine ⟨?_, ?_, ?_, ?_, ?_, ?_, ?_, ?_, ?_, ?_⟩ <;>
+    (refine ⟨?_, ?_, ?_, ?_, ?_, ?_, ?_, ?_, ?_, ?_⟩ <;> (try intro hf0) <;>
      simp_all [Micro.ansW, Micro.ansM, Prog.isProcessing, Micro.inert, Micro.isProc, Prog.isAnswer, answerPending, wfW, Micro.wAllowed, Micro.isReader, Micro.clrW, Micro.tokW, Micro.sup, Prog.isBusy])
   case setActive b =>
     cases b <;>
     (simp only [Bool.and_eq_true, decide_eq_true_eq, Bool.true_and, Bool.not_eq_true'] at wfw
-     refine ⟨?_, ?_, ?_, ?_, ?_, ?_, ?_, ?_, ?_, ?_⟩ <;>
+     refine ⟨?_, ?_, ?_, ?_, ?_, ?_, ?_, ?_, ?_, ?_⟩ <;> (try intro hf0) <;>
      simp_all [Micro.ansW, Micro.ansM, Prog.isProcessing, Micro.inert, Micro.isProc, Prog.isAnswer, answerPending, wfW, Micro.wAllowed, Micro.isReader, Micro.clrW, Micro.tokW, Micro.sup, Prog.isBusy])
   case beginHandoff =>
     have k := key (by simp [Micro.tokW])
     have k2 := keyM (by simp [Micro.tokW])
     have hi := hIn (by simp only [Bool.and_eq_true, Bool.true_and] at wfw; exact wfw.2)
-    refine ⟨?_, ?_, ?_, ?_, ?_, ?_, ?_, ?_, ?_, ?_⟩ <;>
+    refine ⟨?_, ?_, ?_, ?_, ?_, ?_, ?_, ?_, ?_, ?_⟩ <;> (try intro hf0) <;>
      simp_all [Micro.ansW, Micro.ansM, Prog.isProcessing, Micro.inert, Micro.isProc, Prog.isAnswer, answerPending, wfW, Micro.wAllowed, Micro.isReader, Micro.clrW, Micro.tokW, Micro.sup]
   all_goals (
     simp only [Bool.and_eq_true, decide_eq_true_eq, Bool.true_and, Bool.not_eq_true'] at wfw
-    refine ⟨?_, ?_, ?_, ?_, ?_, ?_, ?_, ?_, ?_, ?_⟩ <;>
+    refine ⟨?_, ?_, ?_, ?_, ?_, ?_, ?_, ?_, ?_, ?_⟩ <;> (try intro hf0) <;>
     simp_all [Micro.ansW, Micro.ansM, Prog.isProcessing, Micro.inert, Micro.isProc, Prog.isAnswer, answerPending, wfW, Micro.wAllowed, Micro.isReader, Micro.clrW, Micro.tokW, Micro.sup, Prog.isBusy])
 
 set_option maxHeartbeats 1000000 in
@@ -454,13 +454,13 @@ theorem rest_stepM {s : St} (h : Inv s) {x : Micro} {rest : List Micro} (hm : s.
     wfW s'.w = true ∧ wfM s'.m = true ∧ wsum Micro.relM s'.m ≤ 1 ∧
     (firstRelIsStore s'.m = true → s'.reloading = false) ∧
     (s'.reloading = true → anyRelM s'.m = false → s'.notify = true) ∧
-    (s'.progress.isBusy = true → s'.pending = true ∨ anyRd s'.m = true ∨ anyRd s'.w = true ∨
+    (s'.faults = 0 → s'.progress.isBusy = true → s'.pending = true ∨ anyRd s'.m = true ∨ anyRd s'.w = true ∨
         0 < s'.gStore + s'.gEnd + s'.gRead + s'.gWrite) ∧
     (s'.active = true → anyClrW s'.w = true ∨ anyClrM s'.m = true ∨ s'.reloading = true) ∧
-    (s'.progress.isProcessing = true → anyAnsW s'.w = true ∨ anyAnsM s'.m = true ∨
+    (s'.faults = 0 → s'.progress.isProcessing = true → anyAnsW s'.w = true ∨ anyAnsM s'.m = true ∨
         (s'.reloading = true ∧ anyRelM s'.m = false)) ∧
     (wsum Micro.tokW s'.w = 0 → allInert s'.w = true) ∧
-    (answerPending s' = true → s'.progress.isAnswer = false) := by
+    (s'.faults = 0 → answerPending s' = true → s'.progress.isAnswer = false) := by
   obtain ⟨tok, sup, wfw, wfm, rel1, store, note, busy, act, proc, tail, own⟩ := h
   rw [hm] at wfm busy act rel1 store note proc
   simp only [answerPending, hm] at own
@@ -489,48 +489,48 @@ theorem rest_stepM {s : St} (h : Inv s) {x : Micro} {rest : List Micro} (hm : s.
   case exitIdle => simp at hx
   case casQ k =>
     by_cases hpd : s.pending = true <;>
-    (refine ⟨?_, ?_, ?_, ?_, ?_, ?_, ?_, ?_, ?_, ?_⟩ <;>
+    (refine ⟨?_, ?_, ?_, ?_, ?_, ?_, ?_, ?_, ?_, ?_⟩ <;> (try intro hf0) <;>
      simp_all [Micro.ansW, Micro.ansM, Prog.isProcessing, Micro.inert, Micro.isProc, Prog.isAnswer, answerPending, wfM, Micro.mAllowed, Micro.isReader, Micro.clrM, Micro.relM, Micro.isRelM, firstRelIsStore, Prog.isBusy])
   case beginSend k =>
     have k1 := keySig (by simp [Micro.sigTok])
     have hq : s.queue.length < 1 := by omega
     simp only [hq, if_true]
-    (refine ⟨?_, ?_, ?_, ?_, ?_, ?_, ?_, ?_, ?_, ?_⟩ <;>
+    (refine ⟨?_, ?_, ?_, ?_, ?_, ?_, ?_, ?_, ?_, ?_⟩ <;> (try intro hf0) <;>
      simp_all [Micro.ansW, Micro.ansM, Prog.isProcessing, Micro.inert, Micro.isProc, Prog.isAnswer, answerPending, wfM, Micro.mAllowed, Micro.isReader, Micro.clrM, Micro.relM, Micro.isRelM, firstRelIsStore, Prog.isBusy, busyOf] <;>
      first | omega | (intros; right; right; right; omega))
   case writeBusy b =>
-    by_cases hpd : s.pending = true <;> cases b <;> (refine ⟨?_, ?_, ?_, ?_, ?_, ?_, ?_, ?_, ?_, ?_⟩ <;>
+    by_cases hpd : s.pending = true <;> cases b <;> (refine ⟨?_, ?_, ?_, ?_, ?_, ?_, ?_, ?_, ?_, ?_⟩ <;> (try intro hf0) <;>
      simp_all [Micro.ansW, Micro.ansM, Prog.isProcessing, Micro.inert, Micro.isProc, Prog.isAnswer, answerPending, wfM, Micro.mAllowed, Micro.isReader, Micro.clrM, Micro.relM, Micro.isRelM, firstRelIsStore, Prog.isBusy, busyOf] <;>
      first | omega | (intros; right; right; right; omega))
   case readProg =>
-    by_cases hb : s.progress.isBusy = true <;> (refine ⟨?_, ?_, ?_, ?_, ?_, ?_, ?_, ?_, ?_, ?_⟩ <;>
+    by_cases hb : s.progress.isBusy = true <;> (refine ⟨?_, ?_, ?_, ?_, ?_, ?_, ?_, ?_, ?_, ?_⟩ <;> (try intro hf0) <;>
      simp_all [Micro.ansW, Micro.ansM, Prog.isProcessing, Micro.inert, Micro.isProc, Prog.isAnswer, answerPending, wfM, Micro.mAllowed, Micro.isReader, Micro.clrM, Micro.relM, Micro.isRelM, firstRelIsStore, Prog.isBusy, busyOf] <;>
      first | omega | (intros; right; right; right; omega))
-  case setActive b => cases b <;> (refine ⟨?_, ?_, ?_, ?_, ?_, ?_, ?_, ?_, ?_, ?_⟩ <;>
+  case setActive b => cases b <;> (refine ⟨?_, ?_, ?_, ?_, ?_, ?_, ?_, ?_, ?_, ?_⟩ <;> (try intro hf0) <;>
      simp_all [Micro.ansW, Micro.ansM, Prog.isProcessing, Micro.inert, Micro.isProc, Prog.isAnswer, answerPending, wfM, Micro.mAllowed, Micro.isReader, Micro.clrM, Micro.relM, Micro.isRelM, firstRelIsStore, Prog.isBusy, busyOf] <;>
      first | omega | (intros; right; right; right; omega))
-  case storeReloading b => cases b <;> (refine ⟨?_, ?_, ?_, ?_, ?_, ?_, ?_, ?_, ?_, ?_⟩ <;>
+  case storeReloading b => cases b <;> (refine ⟨?_, ?_, ?_, ?_, ?_, ?_, ?_, ?_, ?_, ?_⟩ <;> (try intro hf0) <;>
      simp_all [Micro.ansW, Micro.ansM, Prog.isProcessing, Micro.inert, Micro.isProc, Prog.isAnswer, answerPending, wfM, Micro.mAllowed, Micro.isReader, Micro.clrM, Micro.relM, Micro.isRelM, firstRelIsStore, Prog.isBusy, busyOf] <;>
      first | omega | (intros; right; right; right; omega))
   case storePF =>
     have k1 := keyRel (by simp [Micro.isRelM])
-    (refine ⟨?_, ?_, ?_, ?_, ?_, ?_, ?_, ?_, ?_, ?_⟩ <;>
+    (refine ⟨?_, ?_, ?_, ?_, ?_, ?_, ?_, ?_, ?_, ?_⟩ <;> (try intro hf0) <;>
      simp_all [Micro.ansW, Micro.ansM, Prog.isProcessing, Micro.inert, Micro.isProc, Prog.isAnswer, answerPending, wfM, Micro.mAllowed, Micro.isReader, Micro.clrM, Micro.relM, Micro.isRelM, firstRelIsStore, Prog.isBusy, busyOf] <;>
      first | omega | (intros; right; right; right; omega))
   case finishFailHead =>
     have k1 := keyRel (by simp [Micro.isRelM])
-    (refine ⟨?_, ?_, ?_, ?_, ?_, ?_, ?_, ?_, ?_, ?_⟩ <;>
+    (refine ⟨?_, ?_, ?_, ?_, ?_, ?_, ?_, ?_, ?_, ?_⟩ <;> (try intro hf0) <;>
      simp_all [Micro.ansW, Micro.ansM, Prog.isProcessing, Micro.inert, Micro.isProc, Prog.isAnswer, answerPending, wfM, Micro.mAllowed, Micro.isReader, Micro.clrM, Micro.relM, Micro.isRelM, firstRelIsStore, Prog.isBusy, busyOf] <;>
      first | omega | (intros; right; right; right; omega))
   case finishSucc =>
     have k1 := keyRel (by simp [Micro.isRelM])
-    rcases hrd : s.retDone with _ | _ | _ <;> (refine ⟨?_, ?_, ?_, ?_, ?_, ?_, ?_, ?_, ?_, ?_⟩ <;>
+    rcases hrd : s.retDone with _ | _ | _ <;> (refine ⟨?_, ?_, ?_, ?_, ?_, ?_, ?_, ?_, ?_, ?_⟩ <;> (try intro hf0) <;>
      simp_all [Micro.ansW, Micro.ansM, Prog.isProcessing, Micro.inert, Micro.isProc, Prog.isAnswer, answerPending, wfM, Micro.mAllowed, Micro.isReader, Micro.clrM, Micro.relM, Micro.isRelM, firstRelIsStore, Prog.isBusy, busyOf] <;>
      first | omega | (intros; right; right; right; omega))
-  case setResult => cases s.reloadErr <;> (refine ⟨?_, ?_, ?_, ?_, ?_, ?_, ?_, ?_, ?_, ?_⟩ <;>
+  case setResult => cases s.reloadErr <;> (refine ⟨?_, ?_, ?_, ?_, ?_, ?_, ?_, ?_, ?_, ?_⟩ <;> (try intro hf0) <;>
      simp_all [Micro.ansW, Micro.ansM, Prog.isProcessing, Micro.inert, Micro.isProc, Prog.isAnswer, answerPending, wfM, Micro.mAllowed, Micro.isReader, Micro.clrM, Micro.relM, Micro.isRelM, firstRelIsStore, Prog.isBusy, busyOf] <;>
      first | omega | (intros; right; right; right; omega))
-  all_goals (refine ⟨?_, ?_, ?_, ?_, ?_, ?_, ?_, ?_, ?_, ?_⟩ <;>
+  all_goals (refine ⟨?_, ?_, ?_, ?_, ?_, ?_, ?_, ?_, ?_, ?_⟩ <;> (try intro hf0) <;>
      simp_all [Micro.ansW, Micro.ansM, Prog.isProcessing, Micro.inert, Micro.isProc, Prog.isAnswer, answerPending, wfM, Micro.mAllowed, Micro.isReader, Micro.clrM, Micro.relM, Micro.isRelM, firstRelIsStore, Prog.isBusy, busyOf] <;>
      first | omega | (intros; right; right; right; omega))
 
@@ -551,6 +551,40 @@ theorem inv_stepM {s : St} (h : Inv s) {x : Micro} {rest : List Micro} (hm : s.m
     obtain ⟨h3, h4, h5, h6, h7, h8, h9, h10, h11, h12⟩ := rest_stepM h hm hx
     exact ⟨h1, h2, h3, h4, h5, h6, h7, h8, h9, h10, h11, h12⟩
   · left; exact hx
+
+/-! ## preservation: a section whose progress-file operation fails -/
+
+theorem inv_stepMF {s : St} (h : Inv s) {x : Micro} {rest : List Micro} (hm : s.m = x :: rest)
+    {r : St × List Micro} (hr : execF s x = some r) :
+    Inv { r.1 with m := r.2 ++ rest, faults := s.faults + 1 } := by
+  obtain ⟨tok, sup, wfw, wfm, rel1, store, note, busy, act, proc, tail, own⟩ := h
+  rw [hm] at wfm rel1 store note act
+  simp only [tokens, owed, hm] at tok sup
+  cases x <;> simp only [execF, Option.some.injEq, reduceCtorEq] at hr
+  all_goals subst hr
+  all_goals (
+    cases hpd : s.pending <;>
+    (refine ⟨?_, ?_, ?_, ?_, ?_, ?_, ?_, ?_, ?_, ?_, ?_, ?_⟩ <;> (try intro hf0) <;>
+     simp_all [tokens, owed, wfM, Micro.mAllowed, Micro.relM, Micro.isRelM, Micro.sigTok, Micro.sup, Micro.tokW,
+       firstRelIsStore, Micro.isReader, Micro.clrM, Micro.ansM] <;> omega))
+
+theorem inv_stepWF {s : St} (h : Inv s) {x : Micro} {rest : List Micro} (hw : s.w = x :: rest)
+    {r : St × List Micro} (hr : execF s x = some r) :
+    Inv { r.1 with w := r.2 ++ rest, faults := s.faults + 1 } := by
+  obtain ⟨tok, sup, wfw, wfm, rel1, store, note, busy, act, proc, tail, own⟩ := h
+  rw [hw] at wfw act tail
+  simp only [tokens, owed, hw] at tok sup
+  have hAT : anyAnsW rest = true → wfW rest = true → 1 ≤ wsum Micro.tokW rest := fun h1 h2 => ansW_imp_tok _ h2 h1
+  cases x <;> simp only [execF, Option.some.injEq, reduceCtorEq] at hr
+  all_goals subst hr
+  all_goals simp only [wfW, Micro.wAllowed, Bool.false_and, Bool.and_false, Bool.false_eq_true] at wfw
+  case setProg p =>
+    cases hp : p.isProcessing <;>
+    (refine ⟨?_, ?_, ?_, ?_, ?_, ?_, ?_, ?_, ?_, ?_, ?_, ?_⟩ <;> (try intro hf0) <;>
+     simp_all [tokens, owed, wfW, Micro.wAllowed, Micro.sup, Micro.tokW, Micro.isReader, Micro.clrW, Micro.ansW, Micro.inert] <;> omega)
+  all_goals (
+    (refine ⟨?_, ?_, ?_, ?_, ?_, ?_, ?_, ?_, ?_, ?_, ?_, ?_⟩ <;> (try intro hf0) <;>
+     simp_all [tokens, owed, wfW, Micro.wAllowed, Micro.sup, Micro.tokW, Micro.isReader, Micro.clrW, Micro.ansW, Micro.inert] <;> omega))
 
 theorem hPath_of_get {i : Nat} {p : HPath} (h : handlerPaths[i]? = some p) : hPathOk p = true :=
   List.all_eq_true.mp handlerPaths_ok p (List.mem_of_getElem? h)
@@ -713,17 +747,17 @@ theorem good_step {s s' : St} (h : Good s) (a : Act) (hs : step s a = some s') :
           · obtain ⟨h5, h6⟩ := h4
             refine ⟨?_, ?_, ?_, ?_, ?_, ?_, ?_, ?_, ?_, ?_, ?_, ?_⟩
             rotate_right
-            · intro ha; apply own
+            · intro hf0 ha; apply own hf0
               simp only [hrl, Bool.or_false]
               simpa [answerPending, h4b] using ha
             all_goals (simp_all [Micro.ansW, Micro.ansM, Prog.isProcessing, Micro.inert, Micro.isProc, Prog.isAnswer, tokens, owed] <;>
-              (intro hb; rcases busy hb with h | h | h <;> simp [h]))
+              (intro hf0 hb; rcases busy hf0 hb with h | h | h <;> simp [h]))
           · obtain ⟨⟨h5, h6⟩, h7⟩ := h4
             refine ⟨?_, ?_, ?_, ?_, ?_, ?_, ?_, ?_, ?_, ?_, ?_, ?_⟩
             rotate_right
-            · intro _; apply own; simp [hrl]
+            · intro hf0 _; apply own hf0; simp [hrl]
             all_goals (simp_all [Micro.ansW, Micro.ansM, Prog.isProcessing, Micro.inert, Micro.isProc, Prog.isAnswer, tokens, owed] <;>
-              (intro hb; rcases busy hb with h | h | h <;> simp [h]))
+              (intro hf0 hb; rcases busy hf0 hb with h | h | h <;> simp [h]))
         · cases hs
       · cases hs
     · cases hs
@@ -737,9 +771,9 @@ theorem good_step {s s' : St} (h : Good s) (a : Act) (hs : step s a = some s') :
         have hok := wPath_of_get hp
         simp only [wPathOk, Bool.and_eq_true, beq_iff_eq] at hok
         obtain ⟨⟨⟨h1, h2⟩, h3⟩, h4⟩ := hok
-        have hown : answerPending { s with queue := q, w := expand p, wAbort := s.qAbort } = true →
+        have hown : s.faults = 0 → answerPending { s with queue := q, w := expand p, wAbort := s.qAbort } = true →
             s.progress.isAnswer = false := by
-          intro ha; apply own
+          intro hf0 ha; apply own hf0
           simp only [answerPending, hw, h4, anyAnsW_nil, hasProc_nil, Bool.not_true, Bool.and_false, Bool.false_and,
             Bool.false_or] at ha ⊢
           exact ha
@@ -748,8 +782,46 @@ theorem good_step {s s' : St} (h : Good s) (a : Act) (hs : step s a = some s') :
         refine ⟨?_, ?_, ?_, ?_, ?_, ?_, ?_, ?_, ?_, ?_, ?_, hown⟩
         · numtac s
         · numtac s
-        all_goals (simp_all <;> (intro hb; rcases busy hb with h | h | h <;> simp [h]))
+        all_goals (simp_all <;> (intro hf0 hb; rcases busy hf0 hb with h | h | h <;> simp [h]))
       · cases hs
+    · cases hs
+  case stepMF =>
+    split at hs
+    · cases hs
+    · rename_i x rest hm
+      split at hs
+      · rename_i r hr
+        simp only [Option.some.injEq] at hs
+        rw [← hs]; right; exact inv_stepMF ⟨tok, sup, wfw, wfm, rel1, store, note, busy, act, proc, tail, own⟩ hm hr
+      · cases hs
+  case stepWF =>
+    split at hs
+    · cases hs
+    · rename_i x rest hw
+      split at hs
+      · rename_i r hr
+        simp only [Option.some.injEq] at hs
+        rw [← hs]; right; exact inv_stepWF ⟨tok, sup, wfw, wfm, rel1, store, note, busy, act, proc, tail, own⟩ hw hr
+      · cases hs
+  case gReadF =>
+    split at hs
+    · simp only [Option.some.injEq] at hs; subst hs; right
+      exact ⟨tok, sup, wfw, wfm, rel1, store, note, fun h => by simp at h, act, fun h => by simp at h, tail, fun h => by simp at h⟩
+    · cases hs
+  case gWriteF =>
+    split at hs
+    · simp only [Option.some.injEq] at hs; subst hs; right
+      exact ⟨tok, sup, wfw, wfm, rel1, store, note, fun h => by simp at h, act, fun h => by simp at h, tail, fun h => by simp at h⟩
+    · cases hs
+  case swallowF k =>
+    split at hs
+    · simp only [Option.some.injEq] at hs; subst hs; right
+      exact ⟨tok, sup, wfw, wfm, rel1, store, note, fun h => by simp at h, act, fun h => by simp at h, tail, fun h => by simp at h⟩
+    · cases hs
+  case cliFail =>
+    split at hs
+    · simp only [Option.some.injEq] at hs; subst hs; right
+      exact ⟨tok, sup, wfw, wfm, rel1, store, note, busy, act, proc, tail, own⟩
     · cases hs
 
 theorem good_init : Good init := by
